@@ -187,6 +187,29 @@ impl Report {
         }
     }
 
+    /// True while fewer than three witnesses are stored for `sig` (building a replay object can be
+    /// expensive; monitors on violation-heavy runs check this before rendering one).
+    pub fn wants_witness(&self, sig: &str) -> bool {
+        self.sig_counts.get(sig).copied().unwrap_or(0) < 3 && self.violations.len() < 60
+    }
+
+    /// Count a violation without storing a witness (use when `wants_witness` is false).
+    pub fn violation_counted(&mut self, sig: &str) {
+        self.violations_total += 1;
+        *self.sig_counts.entry(sig.to_string()).or_insert(0) += 1;
+    }
+
+    /// Like `violation`, but message and replay are only rendered when a witness is still wanted.
+    pub fn violation_lazy(&mut self, sig: impl Into<String>, f: impl FnOnce() -> (String, Value)) {
+        let sig = sig.into();
+        if self.wants_witness(&sig) {
+            let (msg, replay) = f();
+            self.violation(sig, msg, replay);
+        } else {
+            self.violation_counted(&sig);
+        }
+    }
+
     pub fn inconclusive(&mut self, what: Value) {
         self.inconclusive_total += 1;
         if self.inconclusive.len() < 20 {
